@@ -463,6 +463,10 @@ func vc29Do(n *vgcNode, index string, r vc29Req) ([]vc29Sub, []vc29SubOut, error
 		return nil, nil, err
 	case "recalc":
 		return nil, nil, n.API.RecalculateCaches(ctx)
+	case "flushCaches":
+		// what Holder.monitorCacheFlush does on every tick
+		n.Server.holder.flushCaches()
+		return nil, nil, nil
 	}
 	return nil, nil, fmt.Errorf("unknown request kind %q", r.Kind)
 }
@@ -472,7 +476,7 @@ var vc29ReqKinds = []string{
 	"import", "importClear", "roaring", "roaringClear",
 	"setT", "setT", "clearT", "rowT",
 	"setV", "setV", "valueV", "eqV",
-	"count", "topn", "sum", "recalc",
+	"count", "topn", "sum", "recalc", "flushCaches", "flushCaches",
 	"setG", "rowG",
 	"setM", "setM", "setM", "clearM", "rowM", "setB", "setB", "setB", "rowB",
 }
@@ -615,9 +619,13 @@ func TestVerifC29_API(t *testing.T) {
 		nClients := rapid.IntRange(2, 8).Draw(t, "clients")
 		procs := rapid.SampledFrom([]int{1, 2, 4, 16}).Draw(t, "gomaxprocs")
 		maxOpN := rapid.SampledFrom([]int{2, 5, 20, 0}).Draw(t, "maxOpN")
+		caches := []string{CacheTypeRanked, CacheTypeLRU, CacheTypeLRU, CacheTypeNone}
+		fCache := rapid.SampledFrom(caches).Draw(t, "cacheF")
+		gCache := rapid.SampledFrom(caches).Draw(t, "cacheG")
+		mCache := rapid.SampledFrom(caches).Draw(t, "cacheM")
 		plans := make([][]vc29Req, nClients)
 		var key strings.Builder
-		fmt.Fprintf(&key, "p%d m%d", procs, maxOpN)
+		fmt.Fprintf(&key, "p%d m%d %s %s %s", procs, maxOpN, fCache, gCache, mCache)
 		// opening burst: every client sends its first write to the same shard of
 		// field g (no fragment yet) / to a time view of t that does not exist yet,
 		// step by step behind a barrier
@@ -644,6 +652,9 @@ func TestVerifC29_API(t *testing.T) {
 			}
 			for i := 0; i < n; i++ {
 				r := vc29GenReq(t)
+				if r.Kind == "topn" && fCache == CacheTypeNone {
+					r.Kind = "count" // TopN is refused on a field without cache
+				}
 				plans[c] = append(plans[c], r)
 				fmt.Fprintf(&key, "%s/%d ", r.String(), r.Delay)
 			}
@@ -660,8 +671,8 @@ func TestVerifC29_API(t *testing.T) {
 		for _, f := range []struct {
 			name string
 			opt  FieldOption
-		}{{"f", OptFieldTypeSet(CacheTypeRanked, 100)}, {"c", OptFieldTypeSet(CacheTypeRanked, 100)}, {"g", OptFieldTypeSet(CacheTypeRanked, 100)},
-			{"m", OptFieldTypeMutex(CacheTypeRanked, 100)}, {"b", OptFieldTypeBool()},
+		}{{"f", OptFieldTypeSet(fCache, 100)}, {"c", OptFieldTypeSet(CacheTypeRanked, 100)}, {"g", OptFieldTypeSet(gCache, 100)},
+			{"m", OptFieldTypeMutex(mCache, 100)}, {"b", OptFieldTypeBool()},
 			{"t", OptFieldTypeTime(TimeQuantum("YMD"))}, {"v", OptFieldTypeInt(-1000, 1000)}} {
 			if _, err := node.API.CreateField(ctx, index, f.name, f.opt); err != nil {
 				t.Fatalf("create field %s: %v", f.name, err)
@@ -826,7 +837,7 @@ func TestVerifC29_API(t *testing.T) {
 				vkit.Count("porcupine_timeout", 1)
 			}
 		}
-		cs.Class(fmt.Sprintf("clients:%d", nClients)).Class(fmt.Sprintf("gomaxprocs:%d", procs))
+		cs.Class(fmt.Sprintf("clients:%d", nClients)).Class(fmt.Sprintf("gomaxprocs:%d", procs)).Class("cacheF:" + fCache).Class("cacheM:" + mCache)
 		cs.NT(overlap)
 		cs.Sample(map[string]interface{}{"clients": nClients, "gomaxprocs": procs, "maxOpN": maxOpN, "requests_client0": len(plans[0])})
 	})
